@@ -179,3 +179,27 @@ def gcm_guard(workdir, lmax, smax, seed, repo=REPO, prog="gcm_guard"):
             fams = int(tok[9:])
     return {"ok": r.returncode == 0, "text": r.stdout + ("\n[crashed: exit %d]" % r.returncode if r.returncode not in (0, 1) else ""),
             "calls": cases, "cases": cases, "families": fams, "wall_s": time.time() - t0, "cmd": "%s %d %d %d" % (prog, lmax, smax, seed)}
+
+
+def base_diff(workdir, lmax, reps, seed, repo=REPO, opts=("-O1", "-O2")):
+    """bounded native end-to-end check of the five *_ctx_base.c files at the given optimisation levels"""
+    os.makedirs(workdir, exist_ok=True)
+    total, texts, ok = 0, [], True
+    t0 = time.time()
+    for alg in ("sha1", "sha256", "sha512", "md5", "sm3"):
+        for opt in opts:
+            o = cc("%s_mb/%s_ctx_base.c" % (alg, alg), os.path.join(workdir, "%s_base%s.o" % (alg, opt)), repo=repo, opt=opt)
+            exe = os.path.join(workdir, "base_diff_%s%s" % (alg, opt))
+            r = subprocess.run(["gcc", "-O1", "-DVF_ALG_%s" % alg.upper(), "-I" + os.path.join(repo, "include"), "-I" + os.path.join(VERIF, "spec"),
+                                os.path.join(VERIF, "native", "base_diff.c"), o, "-o", exe], capture_output=True, text=True)
+            if r.returncode:
+                raise RuntimeError("link failed: " + r.stderr[-600:])
+            r = subprocess.run([exe, str(lmax), str(reps), str(seed)], capture_output=True, text=True, timeout=900)
+            for tok in r.stdout.split():
+                if tok.startswith("cases="):
+                    total += int(tok[6:])
+            if r.returncode != 0:
+                ok = False
+                texts.append("%s %s: %s" % (alg, opt, r.stdout.strip()[:400] or "[crashed: exit %d]" % r.returncode))
+    return {"ok": ok, "text": "\n".join(texts) or "AGREE", "calls": total, "cases": total, "wall_s": time.time() - t0,
+            "cmd": "base_diff %d %d %d for sha1 sha256 sha512 md5 sm3 x %s" % (lmax, reps, seed, "/".join(opts))}
